@@ -91,13 +91,16 @@ type Task struct {
 	fin    chan struct{}
 
 	// kernel-owned
-	pend     request
-	hasPend  bool
-	finished bool
-	phase    int  // RWMutex.Lock: 0 = needs the writer slot, 1 = announced, waiting for readers
-	granted  bool // RLock already granted by an Unlock
-	curOp    int
-	tag      string // tag of the operation in flight (for pool probes)
+	pend         request
+	hasPend      bool
+	finished     bool
+	phase        int  // RWMutex.Lock: 0 = needs the writer slot, 1 = announced, waiting for readers
+	granted      bool // RLock already granted by an Unlock
+	curOp        int
+	tag          string // tag of the operation in flight (for pool probes)
+	inOp         bool
+	loadedNoLock bool // did an atomic load in this operation and has not taken a lock since
+	inRead       bool // is between reads of a caller-supplied reader
 
 	// task-owned, read by the kernel only after join
 	panicMsg string
@@ -391,8 +394,15 @@ func (k *Kernel) apply(t *Task) (resume bool, rep reply) {
 	case KOpInvoke:
 		t.curOp = int(r.arg)
 		t.tag = r.name
+		t.inOp, t.loadedNoLock, t.inRead = true, false, false
+		for _, u := range k.tasks {
+			if u != t && u.inOp && ((t.tag == "lookup" && u.tag == "extend") || (t.tag == "extend" && u.tag == "lookup")) {
+				k.probe("lookup_while_extend_in_flight")
+			}
+		}
 		k.stamp(&k.out.Invoke[t.ID], int(r.arg), k.logEvent(t, r.kind, "", r.arg))
 	case KOpReturn:
+		t.inOp, t.loadedNoLock, t.inRead = false, false, false
 		k.stamp(&k.out.Return[t.ID], int(r.arg), k.logEvent(t, r.kind, "", r.arg))
 	case KRLock:
 		ls := k.lock(r)
@@ -401,6 +411,7 @@ func (k *Kernel) apply(t *Task) (resume bool, rep reply) {
 		} else {
 			ls.readers++
 		}
+		t.loadedNoLock, t.inRead = false, false
 		if ls.rholders[t] > 0 {
 			k.probe("recursive_rlock")
 		}
@@ -434,6 +445,11 @@ func (k *Kernel) apply(t *Task) (resume bool, rep reply) {
 		}
 		t.phase = 0
 		ls.writer = t
+		for _, u := range k.tasks {
+			if u != t && u.inOp && u.loadedNoLock {
+				k.probe("writer_granted_between_load_and_rlock")
+			}
+		}
 		k.logEvent(t, r.kind, name, 0)
 	case KUnlock:
 		ls := k.lock(r)
@@ -523,6 +539,26 @@ func (k *Kernel) apply(t *Task) (resume bool, rep reply) {
 				}
 				break
 			}
+		}
+		k.logEvent(t, r.kind, name, r.arg)
+	case KAtomicLoad:
+		if t.inOp {
+			t.loadedNoLock = true
+		}
+		k.logEvent(t, r.kind, name, r.arg)
+	case KAtomicStore, KAtomicRMW:
+		for _, u := range k.tasks {
+			if u != t && u.inOp && u.loadedNoLock {
+				k.probe("store_between_load_and_rlock")
+			}
+			if u != t && u.inOp && u.inRead {
+				k.probe("store_while_reader_mid_delivery")
+			}
+		}
+		k.logEvent(t, r.kind, name, r.arg)
+	case KRead, KReadRet:
+		if t.inOp {
+			t.inRead = true
 		}
 		k.logEvent(t, r.kind, name, r.arg)
 	default:
